@@ -190,7 +190,7 @@ def cmd_discover(args):
             print(f"   Suggested merchant: {merchant}")
             print()
             print(f"   {C.DIM}[{merchant}]")
-            print(f"   match: contains(\"{pattern}\")")
+            print(f"   match: {suggest_match_expression(pattern)}")
             print(f"   category: CATEGORY")
             print(f"   subcategory: SUBCATEGORY")
             if stats['has_negative']:
@@ -262,12 +262,21 @@ def suggest_merchant_name(description):
     return 'Unknown'
 
 
+def suggest_match_expression(pattern):
+    """Wrap a pattern from suggest_pattern() in a match expression.
+
+    suggest_pattern() returns a regular expression (metacharacters escaped, words joined
+    with \\s*), so it has to be matched with regex(), and backslashes and quotes have to be
+    escaped for the string literal.
+    """
+    escaped_pattern = pattern.replace('\\', '\\\\').replace('"', '\\"')
+    return f'regex("{escaped_pattern}")'
+
+
 def suggest_merchants_rule(merchant_name, pattern, tags=None):
     """Generate a suggested rule block in .rules format."""
-    # Escape quotes in pattern if needed
-    escaped_pattern = pattern.replace('"', '\\"')
     rule = f"""[{merchant_name}]
-match: contains("{escaped_pattern}")
+match: {suggest_match_expression(pattern)}
 category: CATEGORY
 subcategory: SUBCATEGORY"""
     if tags:
